@@ -9,8 +9,11 @@ from gen.zoo import f
 def axes(draw, k, decades=3.0):
     """k positive semi-axes, any order, with forced ties and near-ties."""
     base = [draw(f(-decades, decades)) for _ in range(k)]
-    mode = draw(st.sampled_from(["free", "free", "tie_all", "tie_two", "near_tie", "needle", "disc"]))
+    mode = draw(st.sampled_from(["free", "free", "tie_all", "tie_two", "near_tie", "needle", "disc", "integers"]))
     ax = [10.0 ** b for b in base]
+    if mode == "integers":
+        # integer-typed parameters (Ellipsoid(1, 2, 3)): arithmetic on them must not stay in integers
+        return {"axes": [draw(st.integers(1, 9)) for _ in range(k)], "mode": mode}
     if mode == "tie_all":
         ax = [ax[0]] * k
     elif mode == "tie_two" and k >= 2:
